@@ -88,6 +88,9 @@ func (ex *Exec) freeVarNames(st *State, fr *Frame, names map[string]Value) map[s
 }
 
 // VerifyFunction symbolically executes fn against its contract (may be nil: safety only).
+// MissingLoopTargets: covers clauses whose loop no longer exists in the function they are written on.
+var MissingLoopTargets = map[string]bool{}
+
 func (ex *Exec) VerifyFunction(fn *ssa.Function, ct *Contract) {
 	if len(fn.Blocks) == 0 {
 		return
@@ -110,7 +113,11 @@ func (ex *Exec) VerifyFunction(fn *ssa.Function, ct *Contract) {
 			miss(c.Loop, c.Line)
 		}
 		for _, c := range ct.Covers {
-			miss(c.Loop, c.Line)
+			if !have[c.Loop] {
+				// the loop moved out of this function (extracted into a helper): the clause has no target here; it is
+				// reported in the evidence (missing_targets) and is not by itself an error or a violation
+				MissingLoopTargets[fmt.Sprintf("%s: covers clause %q: %s has no loop#%d any more", c.Line, c.Label, ex.fnName(fn), c.Loop)] = true
+			}
 		}
 	}
 	// aliasing partitions of same-typed pointer parameters: all distinct, plus each aliased pair
